@@ -50,6 +50,10 @@ class Ctx:
         self.rng = random.Random(seed)
         base = os.environ.get("VERIF_WORK") or tempfile.gettempdir()
         self.work = tempfile.mkdtemp(prefix="verif-%s-" % pid, dir=base)
+        # children (go build, harness binaries and the servers they start, the JVM) put their own
+        # temporary files under the work directory, which is removed at the end of the run
+        os.environ["TMPDIR"] = os.path.join(self.work, "tmp")
+        os.makedirs(os.environ["TMPDIR"], exist_ok=True)
         self.t0 = time.time()
         self.violations = []
         self.notes = []
